@@ -26,6 +26,12 @@ CHECKS = {
             "handler call while one or both link directions go silent at tape-chosen points, permanently or for a while", "5 C04", "timing oracle on the virtual clock"),
     "C20": ("routing table and routing/admission agreement judged on every routed PDU incl. synthetic kinds and header variants; "
             "misroute and bad-status faults; table cells covered are measured (sampling, not enumeration)", "5 C20", "in-situ oracle + misroute fault"),
+    "C12": ("clauses (a)-(e) judged on cancel requests (right / wrong id) injected between any two handler calls on either side, "
+            "both modes, closure and disposition settings, optional link faults", "5 C12", "cancel-point search"),
+    "C13": ("check-timer RetryModel judged at every call while the link makes the EOF overtake tape-chosen File Data PDUs and "
+            "releases them relative to the expiries; separate sender scenario", "5 C13", "timing oracle on the virtual clock"),
+    "C14": ("FaultTableModel judged at every call over nine fault-provoking scenarios x handler codes for every condition of both "
+            "entities", "5 C14", "fault scenario x handler table search"),
     "C15": ("indication model judged on every handler call in four populations; 2^4 switches per entity and 5 message variants", "5 C15", "in-situ invariant vs IndicationModel"),
 }
 NOT_BUILT = "check not built yet (work in progress, see DESIGN.md section 5)"
